@@ -18,11 +18,41 @@ RULE = (
     "two kinds of API operations")
 
 
+def _a(a, **kw):
+    d = {"a": a}
+    d.update(kw)
+    return d
+
+
+# objects revoked under a key before it is rolled out: they must stay on the
+# CRL the old key publishes between the activation of the new key and its
+# own revocation (a removed route origin object; a re-issued child
+# certificate), observed by running the repository synchronisation before
+# the parent synchronisation that completes the roll
+DIRECTED = [
+    {"actions": [
+        _a("AddCa", c="B", p="A", res=["p1", "p2"]), _a("Settle"),
+        _a("RoaAdd", c="B", r=["p1", "a1"]), _a("RoaAdd", c="B", r=["p2", "a1"]),
+        _a("Settle"), _a("RoaDel", c="B", r=["p1", "a1"]), _a("Settle"),
+        _a("RollInit", c="B"), _a("Settle"), _a("RollActivate", c="B"),
+        _a("Step", task="sync_repo_B"), _a("Step", task="sync_repo_A"),
+        _a("Settle")]},
+    {"actions": [
+        _a("AddCa", c="B", p="A", res=["p1", "p2"]), _a("Settle"),
+        _a("AddCa", c="C", p="B", res=["p1", "p2"]), _a("Settle"),
+        _a("ChildRes", c="C", p="B", res=["p1"]), _a("Settle"),
+        _a("RollInit", c="B"), _a("Settle"), _a("RollActivate", c="B"),
+        _a("Step", task="sync_repo_B"), _a("Step", task="sync_repo_A"),
+        _a("Settle")]},
+]
+
+
 def run(tier, seed):
     return kc.run_property(
         PID, LEVEL, tier, seed, THEMES,
         quick_num=10 if len(THEMES) > 1 else 24, thorough_num=250,
-        assumptions=kc.COMMON_ASSUMPTIONS, rule=RULE, needed_events=NEEDED)
+        assumptions=kc.COMMON_ASSUMPTIONS, rule=RULE, needed_events=NEEDED,
+        directed=DIRECTED)
 
 
 def replay(path, seed):
